@@ -144,7 +144,18 @@ func cmdWorker(args []string) int {
 			continue
 		}
 		// violation: attribute first; trips that belong to other properties are only counted
-		if pre := sim.Attribute(tr, v); !contains(pre, *prop) {
+		pre := sim.Attribute(tr, v)
+		if !contains(pre, *prop) && *prop == "C11" && tr.Plan.Listener == "all" && tr.Plan.Lens == "" {
+			// C11 looks at the rest of the run through its own lens: the world rebuilt from the delivered events
+			// must equal the world, whatever else went wrong
+			lt := sim.CloneTrace(tr)
+			lt.Plan.Lens = "C11"
+			if lv, _ := sim.RunTrace(lt, false); lv != nil && sim.DirectlyAttributed(lv, "C11") {
+				tr, v = lt, lv
+				pre = sim.Attribute(tr, v)
+			}
+		}
+		if !contains(pre, *prop) {
 			key := v.Class + "->" + strings.Join(pre, "+")
 			sum.Foreign[key]++
 			if sum.Foreign[key] == 1 {
